@@ -196,6 +196,67 @@ def c_instr(i):
             'DUP': 'IDup', 'SWAP': 'ISwap', 'DROP': 'IDrop', 'SOME': 'ISome', 'UNIT': 'IUnit', 'EQ': 'IEq'}[i[0]]
 
 
+
+# ---- instruction annotations (field %x, variable @v, type :t) added to the program text -----------------------------
+_OPS_RE = None
+
+
+def decorate(code, seed):
+    """The same program with annotations on its INSTRUCTIONS (deterministic in `seed`; None = unchanged): CAR/CDR get field
+    annotations drawn from the same names the type annotations use (so that they sometimes coincide with, sometimes differ from
+    the field name of the projected component), constructors get field/variable/type annotations, the rest variable annotations."""
+    import random as _random
+    import re as _re
+    global _OPS_RE
+    if seed is None:
+        return code
+    if _OPS_RE is None:
+        _OPS_RE = _re.compile(r'(?<![A-Za-z_])(CAR|CDR|GET|UPDATE|PAIR|UNPAIR|LEFT|RIGHT|SOME|NONE|UNIT|DUP|COMPARE|EQ|PACK|UNPACK|PUSH|'
+                              r'CONS|NIL|EMPTY_MAP|EMPTY_SET|LAMBDA|EXEC|APPLY|MEM|MAP|ITER)(?![A-Za-z_])( \d+)?')
+    r = _random.Random(f'instr-annots:{seed}')
+
+    def ann(m):
+        op, num = m.group(1), m.group(2) or ''
+        a = []
+        if op in ('CAR', 'CDR'):
+            if r.random() < 0.7:
+                a.append('%' + r.choice(NAMES))
+            if r.random() < 0.3:
+                a.append('@' + r.choice(NAMES))
+        elif op == 'PAIR' and not num:
+            if r.random() < 0.5:
+                a += ['%' + r.choice(NAMES), '%' + r.choice(NAMES)]
+            if r.random() < 0.3:
+                a.append('@' + r.choice(NAMES))
+            if r.random() < 0.3:
+                a.append(':' + r.choice(NAMES))
+        elif op == 'UNPAIR' and not num:
+            if r.random() < 0.4:
+                a += ['%' + r.choice(NAMES), '%' + r.choice(NAMES)]
+            if r.random() < 0.4:
+                a += ['@' + r.choice(NAMES), '@' + r.choice(NAMES)]
+        elif op in ('LEFT', 'RIGHT'):
+            if r.random() < 0.5:
+                a += ['%' + r.choice(NAMES), '%' + r.choice(NAMES)]
+            if r.random() < 0.3:
+                a.append('@' + r.choice(NAMES))
+            if r.random() < 0.3:
+                a.append(':' + r.choice(NAMES))
+        elif op in ('SOME', 'NONE', 'UNIT', 'NIL', 'EMPTY_MAP', 'EMPTY_SET', 'LAMBDA', 'UNPACK'):
+            if r.random() < 0.4:
+                a.append('@' + r.choice(NAMES))
+            if r.random() < 0.3:
+                a.append(':' + r.choice(NAMES))
+        elif op in ('MAP', 'ITER') or (op in ('GET', 'UPDATE', 'PAIR', 'UNPAIR') and num) or op in ('GET', 'UPDATE'):
+            if r.random() < 0.4 and op != 'ITER' and not (op == 'UNPAIR' and num):
+                a.append('@' + r.choice(NAMES))
+        else:
+            if r.random() < 0.4:
+                a.append('@' + r.choice(NAMES))
+        return op + ''.join(' ' + x for x in a) + num
+    return _OPS_RE.sub(ann, code)
+
+
 def strip_ty(e):
     out = {'prim': e['prim']}
     if e.get('args'):
@@ -203,11 +264,11 @@ def strip_ty(e):
     return out
 
 
-def run_prog(prog):
+def run_prog(prog, iseed=None):
     """fresh Interpreter, whole program in one cell. -> (items or None, erased observation)"""
     from pytezos.michelson.repl import Interpreter
     itp = Interpreter()
-    code = ' ; '.join(instr_text(i) for i in prog)
+    code = decorate(' ; '.join(instr_text(i) for i in prog), iseed)
     ok, res = lib.call(itp.execute, code)
     if not ok:
         return code, None, ('crash', type(res).__name__)
@@ -420,7 +481,12 @@ def wide_program(rng):
     P = ' ; '.join(proj) if proj else ''
     body = '{ ' + P + ' }' if P else '{}'
     cdr_body = '{ CDR' + (' ; ' + P if P else '') + ' }'
-    kind = rng.randrange(0, 14)
+    kind = rng.randrange(0, 20)
+    TU = ('pair', T, U)
+    KT = ('pair', K, T)
+    uval = gen_value(rng, U)
+    tuval = gen_value(rng, TU)
+    ktval = {'prim': 'Pair', 'args': [keys[0], vals[0]]}
 
     def build(style):
         ty = lambda sk: text(annotate(rng, sk, style))   # noqa: E731
@@ -457,6 +523,21 @@ def wide_program(rng):
             return f'EMPTY_MAP {ty(K)} {ty(T)} ; {ups} ; ITER {{ CDR ; {P + " ; " if P else ""}DROP }} ; UNIT'
         if kind == 12:
             return f'PUSH (list (option {ty(T)})) {{ Some {v[0]} ; None }} ; MAP {{ IF_NONE {{ PUSH {ty(psk)} {text(gen_value(random_for(psk), psk))} }} {body} }} ; PACK'
+        if kind == 14:   # APPLY captures the (possibly field-annotated) left component of the lambda parameter
+            return (f'LAMBDA {ty(TU)} {ty(psk)} {{ CAR{" ; " + P if P else ""} }} ; PUSH {ty(T)} {v[0]} ; APPLY ; '
+                    f'PUSH {ty(U)} {text(uval)} ; EXEC')
+        if kind == 19:   # the partially applied lambda itself is serialized
+            return f'LAMBDA {ty(TU)} {ty(psk)} {{ CAR{" ; " + P if P else ""} }} ; PUSH {ty(T)} {v[0]} ; APPLY ; PACK'
+        if kind == 15:   # CONS / SOME / LEFT of a projected (field-annotated) component
+            return f'PUSH {ty(TU)} {text(tuval)} ; UNPAIR ; NIL {ty(T)} ; SWAP ; CONS ; SWAP ; SOME ; PAIR ; PACK'
+        if kind == 16:   # map UPDATE / GET with projected key and value
+            return (f'PUSH {ty(KT)} {text(ktval)} ; UNPAIR ; DIP {{ SOME }} ; EMPTY_MAP {ty(K)} {ty(T)} ; DUG 2 ; DUP ; DUG 3 ; UPDATE ; '
+                    f'SWAP ; GET ; PACK')
+        if kind == 17:   # set UPDATE / MEM with a projected element
+            return (f'PUSH {ty(("pair", K, ("p", "bool")))} (Pair {k[0]} True) ; UNPAIR ; DUP ; DUG 2 ; EMPTY_SET {ty(K)} ; DUG 2 ; UPDATE ; '
+                    f'SWAP ; MEM')
+        if kind == 18:
+            return f'PUSH {ty(TU)} {text(tuval)} ; UNPAIR ; LEFT {ty(U)} ; SWAP ; RIGHT {ty(T)} ; PAIR ; DUP ; PACK ; SWAP ; UNPAIR ; DROP ; IF_LEFT {body} {{ DROP ; UNIT }}'
         return f'PUSH {ty(T)} {v[0]} ; PUSH {ty(T)} {v[1]} ; PAIR ; DUP ; CAR ; SWAP ; CDR ; COMPARE'
     return kind, build
 
@@ -548,10 +629,9 @@ def run(ctx: lib.Ctx) -> None:
         w = f.get('witness', {})
         if 'annotated' in w and 'stripped' in w and not any(w['annotated'] == x[1] for x in fixed):
             fixed.append((f"fixed defect is back ({f.get('commit')}): {f.get('what')}", w['annotated'], w['stripped']))
-    kf = ctx.finding('list-map-field-annot')
-    if kf:                                        # still a known finding: note whether its witness still reproduces
+    for kf in ctx.known.get('findings', []):      # still known findings: note whether their witnesses still reproduce
         w = kf['witness']
-        ctx.extra['known_finding_witness_still_fails'] = observe_text(w['annotated']) != observe_text(w['stripped'])
+        ctx.extra.setdefault('known_finding_witness_still_fails', {})[kf['id']] = observe_any(w['annotated']) != observe_any(w['stripped'])
     for what, annotated, plain in fixed:
         a, b = observe_text(annotated), observe_text(plain)
         ctx.case(('fixed', annotated), kind='fixed-witness', sample={'code': annotated, 'result': repr(a)[:200]})
@@ -560,7 +640,7 @@ def run(ctx: lib.Ctx) -> None:
                                                            'repro': f'Interpreter().execute({annotated!r}) vs Interpreter().execute({plain!r})'}, found=True)
             violations += 1
     cases, meta, mcases, mmeta = [], [], [], []
-    nprog = ctx.n(200, 2000)
+    nprog = ctx.n(150, 2000)
     for _ in range(nprog):
         prog = gen_program(rng)
         twins = []
@@ -584,9 +664,17 @@ def run(ctx: lib.Ctx) -> None:
             n_ann = code.count('%') + code.count(':')
             ctx.case(code, nontrivial=n_instr(conc) >= 3 and (style == 'none' or n_ann > 0), kind=f'{style}:{obs[0]}:{prog[-1][0]}',
                      sample={'code': code, 'result': repr(obs)[:300]})
+        # twins that also carry annotations on the instructions (types annotated / stripped; thorough: a renamed set too)
+        iseed = rng.randrange(1 << 30)
+        extra = [('all', iseed), ('none', iseed)] + ([('all', iseed + 1)] if ctx.thorough else [])
+        for style, sd in extra:
+            conc = concretize(rng, prog, style)
+            code, items, obs = run_prog(conc, sd)
+            twins.append((style + '+instr', conc, code, items, obs))
+            ctx.case(code, nontrivial=True, kind=f'{style}+instr-annots:{obs[0]}', sample=None)
         # (B) twins agree
         base = twins[2][4]
-        for style, conc, code, items, obs in twins[:2]:
+        for style, conc, code, items, obs in twins[:2] + twins[3:]:
             if obs != base and violations < 3:
                 ctx.violation('annotations change the result: the annotated and the stripped program differ',
                               {'annotated_code': code, 'stripped_code': twins[2][2], 'annotated_result': obs, 'stripped_result': base,
@@ -594,21 +682,36 @@ def run(ctx: lib.Ctx) -> None:
                 violations += 1
     ctx.extra['programs'] = nprog
     # second stream: collections / lambdas / MAP / ITER, twins only
-    nwide = ctx.n(150, 2500)
+    nwide = ctx.n(130, 2500)
     wide_kinds = {}
     known_hits = 0
     for _ in range(nwide):
         kind, build = wide_program(rng)
         codes = [build(st) for st in ('all', 'some', 'none')]
+        iseed = rng.randrange(1 << 30)
+        styles = ['all', 'some', 'none', 'all+instr', 'none+instr'] + (['all+instr2'] if ctx.thorough else [])
+        codes += [decorate(build('all'), iseed), decorate(build('none'), iseed)] + ([decorate(build('all'), iseed + 1)] if ctx.thorough else [])
         obs3 = [observe_any(c) for c in codes]
         wide_kinds[kind] = wide_kinds.get(kind, 0) + (obs3[2][0] == 'ok')
-        for st, c, o in zip(('all', 'some', 'none'), codes, obs3):
+        for st, c, o in zip(styles, codes, obs3):
             ctx.case(c, nontrivial=True, kind=f'wide{kind}:{st}:{o[0]}', sample=None)
-        for c, o in zip(codes[:2], obs3[:2]):
+        for c, o in zip(codes[:2] + codes[3:], obs3[:2] + obs3[3:]):
             if o != obs3[2] and o == ('fail',) and ' MAP ' in c and 'PUSH (list' in c and ctx.finding('list-map-field-annot'):
                 observe_any(c)
                 if 'list argument type cannot be annotated' in LAST_ERROR[0]:
                     ctx.known_hit(ctx.finding('list-map-field-annot'))
+                    known_hits += 1
+                    continue
+            if o != obs3[2] and o[0] == 'ok' and obs3[2][0] == 'ok' and ' APPLY' in c and ctx.finding('apply-push-annot') \
+                    and any(a != b and b[1].get('prim') in ('lambda', 'bytes') for a, b in zip(o[1], obs3[2][1])) \
+                    and all(a == b or b[1].get('prim') in ('lambda', 'bytes') for a, b in zip(o[1], obs3[2][1])):
+                ctx.known_hit(ctx.finding('apply-push-annot'))
+                known_hits += 1
+                continue
+            if o != obs3[2] and o == ('fail',) and ' APPLY' in c and ctx.finding('apply-field-annot'):
+                observe_any(c)
+                if LAST_ERROR[0].startswith('APPLY lambda argument type cannot be annotated'):
+                    ctx.known_hit(ctx.finding('apply-field-annot'))
                     known_hits += 1
                     continue
             if o != obs3[2] and violations < 3:
